@@ -301,10 +301,18 @@ func runSolvers(script string, dir, base string, timeoutS int, needAgree bool, w
 	}
 	// no definite answer
 	res := "unknown"
+	nerr := 0
 	for _, v := range all {
 		if v == "timeout" {
 			res = "timeout"
 		}
+		if v == "error" {
+			nerr++
+		}
+	}
+	if nerr == len(all) && nerr > 0 {
+		// every solver rejected the query: a defect of the generator, never a verdict about the code
+		res = "error"
 	}
 	var outs []string
 	for k, v := range all {
